@@ -87,7 +87,7 @@ def judge(case):
     elif r.status != 0:
         if r.out.strip():
             fail('output-with-failure-status', 'exit %s' % r.status, '%d bytes on stdout' % len(r.out))
-        elif not quiet and not [ln for ln in err.split(b'\n') if ln.strip() and not re.match(rb'^do_source_file\S*: Parsing: ', ln)]:
+        elif not quiet and not [ln for ln in err.split(b'\n') if ln.strip() and not re.match(rb'^\w+(\(\d+\))?: Parsing: ', ln)]:
             # the "Parsing: FILE as language L" banner is printed for every file; it does not name a problem
             fail('no-diagnostic', 'exit %s' % r.status, 'nothing but the Parsing banner on stderr without -q')
     ntok = len(re.findall(rb'\w+|[^\s\w]', case.src[:4000]))
